@@ -92,6 +92,8 @@ def check(prog, run):
                 names = {y.id for y in ast.walk(test) if isinstance(y, ast.Name)}
                 if counter & names and isinstance(test, ast.Compare) and isinstance(test.ops[0], ast.Eq):
                     return None if truth else "not-last"
+                if counter & names and isinstance(test, ast.Compare) and isinstance(test.ops[0], (ast.NotEq, ast.Lt)):
+                    return "not-last" if truth else None
                 if isinstance(test, ast.Call) and isinstance(test.func, ast.Attribute) and test.func.attr == "cancelled":
                     return None if truth else "not-cancelled"
                 return None
@@ -135,11 +137,34 @@ def check(prog, run):
     shapes.require(len(counters) == 1, "C08.R4: completion counter of %s not found" % of.qualname)
     counter = counters[0]
     r.instance("roles: pending list `%s`, callback %s, counter `%s`" % (pending_name, of.name, counter))
+    copies = {}
+    for x in own_nodes(gf.node):
+        if isinstance(x, ast.Assign) and len(x.targets) == 1:
+            t, v = x.targets[0], x.value
+            pairs = list(zip(t.elts, v.elts)) if isinstance(t, ast.Tuple) and isinstance(v, ast.Tuple) and len(t.elts) == len(v.elts) else [(t, v)]
+            for tt, vv in pairs:
+                if isinstance(tt, ast.Name) and isinstance(vv, ast.Name):
+                    copies.setdefault(tt.id, set()).add(vv.id)
+
+    def aliases(nm):
+        out, todo = {nm}, [nm]
+        while todo:
+            for y in copies.get(todo.pop(), ()):
+                if y not in out:
+                    out.add(y)
+                    todo.append(y)
+        return out
+    pend_names, count_names = aliases(pending_name), aliases(counter)
+    # the partition loop is the one that fills the pending list
+    for lp in loops:
+        if any(isinstance(x, ast.Call) and gcn.func_text(x).endswith(".append") and gcn.func_text(x)[:-len(".append")] in pend_names for x in ast.walk(lp)):
+            part = lp
+            break
 
     def pev(x):
-        if isinstance(x, ast.Call) and gcn.func_text(x) == "%s.append" % pending_name:
+        if isinstance(x, ast.Call) and gcn.func_text(x).endswith(".append") and gcn.func_text(x)[:-len(".append")] in pend_names:
             return "pend"
-        if isinstance(x, ast.AugAssign) and isinstance(x.target, ast.Name) and x.target.id == counter and isinstance(x.op, ast.Add):
+        if isinstance(x, ast.AugAssign) and isinstance(x.target, ast.Name) and x.target.id in count_names and isinstance(x.op, ast.Add):
             return "count"
         return None
     normal, _ = event_paths(None, pev, body=part.body, may_raise=lambda n: None)
@@ -332,6 +357,17 @@ def _else_names(f):
             if len(els) == 2:
                 out["type"].add(els[0].id)
                 out["cb"].add(els[1].id)
+    # copies: `exc_type, cb = a, b` / `x = a` where a, b are such names (helpers unpacking else_ are analysed inlined)
+    for _ in range(3):
+        for n in ast.walk(f.node):
+            if isinstance(n, ast.Assign) and len(n.targets) == 1:
+                t, v = n.targets[0], n.value
+                pairs = list(zip(t.elts, v.elts)) if isinstance(t, ast.Tuple) and isinstance(v, ast.Tuple) and len(t.elts) == len(v.elts) else [(t, v)]
+                for tt, vv in pairs:
+                    if isinstance(tt, ast.Name) and isinstance(vv, ast.Name):
+                        for role in ("type", "cb"):
+                            if vv.id in out[role]:
+                                out[role].add(tt.id)
     return out
 
 
@@ -560,8 +596,12 @@ def check_map_value_contract(prog, run, rule_id):
                     continue
                 out.append("then!" if e == "src!" else e)
             return tuple(out)
-        normal = {attempt(q) for q in normal}
-        raised = {attempt(q) for q in raised}
+        def feasible(q):
+            # without an else_ nothing matches it: `isinstance(err, else_[0])` is not evaluated (or is asked of the empty tuple of
+            # classes a helper substitutes) - a path that finds else_ absent and then a matching class does not exist
+            return not ("noelse" in q and "match" in q[q.index("noelse"):])
+        normal = {attempt(q) for q in normal if feasible(q)}
+        raised = {attempt(q) for q in raised if feasible(q)}
         is_future_cb = any(ev(n) in COMPLETE for n in own_nodes(f.node))
         # a failure of the attempt (fetching the source value or running `then`) is always offered to else_: the path
         # consults isinstance(err, else_[0]), or else_ is absent on it, or it is the cancellation hand-over
@@ -707,29 +747,74 @@ def check_gather_bookkeeping(prog, run, rule_id="R6"):
     vcn = Canon(gv.node)
     loop = [n for n in gv.node.body if isinstance(n, ast.For)]
     shapes.require(len(loop) == 1, "C08.R6: gather_values loop not found")
-    # roles by data flow: the nested coroutine patches RESULT[i] = v for (i, v) in zip(INDEX, await gather(*AWAITABLES))
+    # roles by data flow: the awaiting coroutine patches RESULT[i] = v for (i, v) in zip(INDEX, await gather(*AWAITABLES)); it is a
+    # closure of gather_values, or a module-level coroutine function gather_values hands its lists to (parameters mapped
+    # back to the caller's names)
+    rename = {}
     aws = [f for f in gv.nested.values() if any(isinstance(x, ast.Await) for x in ast.walk(f.node))]
+    if not aws:
+        for c in own_nodes(gv.node):
+            if isinstance(c, ast.Call) and isinstance(c.func, ast.Name):
+                for cal in prog.resolve_call(gv, c):
+                    if isinstance(cal.node, ast.AsyncFunctionDef) and cal.cls is None and all(isinstance(x, ast.Name) for x in c.args) and not c.keywords:
+                        aws.append(cal)
+                        rename = dict(zip([p.arg for p in cal.node.args.args], [x.id for x in c.args]))
     shapes.require(len(aws) == 1, "C08.R6: the awaiting coroutine of gather_values not found")
     aw = aws[0]
+    # names bound once to another list by a (tuple) assignment in gather_values stand for that list
+    same = {}
+    for n in own_nodes(gv.node):
+        if isinstance(n, ast.Assign) and len(n.targets) == 1:
+            t, v = n.targets[0], n.value
+            pairs = list(zip(t.elts, v.elts)) if isinstance(t, ast.Tuple) and isinstance(v, ast.Tuple) and len(t.elts) == len(v.elts) else [(t, v)]
+            for tt, vv in pairs:
+                if isinstance(tt, ast.Name) and isinstance(vv, ast.Name):
+                    same[tt.id] = vv.id
+
+    def origin(nm):
+        nm = rename.get(nm, nm)
+        for _ in range(4):
+            if nm in same:
+                nm = same[nm]
+        return nm
     roles = None
     for n in own_nodes(aw.node):
         if isinstance(n, ast.For) and isinstance(n.iter, ast.Call) and ast.unparse(n.iter.func) == "zip" and len(n.iter.args) == 2 \
                 and isinstance(n.target, ast.Tuple) and len(n.target.elts) == 2:
             a0, a1 = n.iter.args
+            if isinstance(a1, ast.Name):
+                # `gathered = await asyncio.gather(*pending)` named before the zip
+                defs = [x.value for x in own_nodes(aw.node) if isinstance(x, ast.Assign) and len(x.targets) == 1 and isinstance(x.targets[0], ast.Name) and x.targets[0].id == a1.id]
+                if len(defs) == 1:
+                    a1 = defs[0]
             stars = [x.value for x in ast.walk(a1) if isinstance(x, ast.Starred)]
             gathered = any(isinstance(x, ast.Call) and ast.unparse(x.func).endswith("gather") for x in ast.walk(a1)) and \
                 any(isinstance(x, ast.Await) for x in ast.walk(a1))
             i, v = [ast.unparse(e) for e in n.target.elts]
             for s2 in n.body:
                 if isinstance(s2, ast.Assign) and isinstance(s2.targets[0], ast.Subscript) and ast.unparse(s2.targets[0].slice) == i \
-                        and ast.unparse(s2.value) == v and isinstance(a0, ast.Name) and len(stars) == 1 and isinstance(stars[0], ast.Name) and gathered:
-                    roles = {"index": a0.id, "awaitables": stars[0].id, "result": ast.unparse(s2.targets[0].value)}
+                        and ast.unparse(s2.value) == v and isinstance(a0, ast.Name) and len(stars) == 1 and isinstance(stars[0], ast.Name) and gathered \
+                        and isinstance(s2.targets[0].value, ast.Name):
+                    roles = {"index": origin(a0.id), "awaitables": origin(stars[0].id), "result": origin(s2.targets[0].value.id)}
     r.instance("gather_values roles %s" % roles)
     if roles is None:
         run.report(r, "%s:AsyncIORuntime.gather_values:patch" % AIO, aw.where(), "awaited results are not written back through zip(index list, await gather(*awaitables))")
     else:
         by_list = {v: k for k, v in roles.items()}
-        idx_var = loop[0].target.elts[0].id if isinstance(loop[0].target, ast.Tuple) and isinstance(loop[0].target.elts[0], ast.Name) else None
+        idx_var = loop[0].target.elts[0].id if isinstance(loop[0].target, ast.Tuple) and isinstance(loop[0].target.elts[0], ast.Name) \
+            and isinstance(loop[0].iter, ast.Call) and ast.unparse(loop[0].iter.func) == "enumerate" else None
+        counter = None
+        if idx_var is None:
+            # a hand-written position counter: 0 before the loop, `+= 1` as the last statement of every iteration
+            last = loop[0].body[-1] if loop[0].body else None
+            if isinstance(last, ast.AugAssign) and isinstance(last.op, ast.Add) and isinstance(last.target, ast.Name) \
+                    and isinstance(last.value, ast.Constant) and last.value.value == 1:
+                nm = last.target.id
+                inits = [x for x in gv.node.body if isinstance(x, ast.Assign) and len(x.targets) == 1 and isinstance(x.targets[0], ast.Name) and x.targets[0].id == nm]
+                others = [x for x in ast.walk(loop[0]) if isinstance(x, ast.Name) and x.id == nm and isinstance(x.ctx, ast.Store) and x is not last.target]
+                if len(inits) == 1 and isinstance(inits[0].value, ast.Constant) and inits[0].value.value == 0 and not others \
+                        and not any(isinstance(x, (ast.Continue, ast.Break)) for x in ast.walk(loop[0])):
+                    idx_var = counter = nm
 
         def gev(x):
             if isinstance(x, ast.Call):
